@@ -528,6 +528,14 @@ class SimNet(object):
             sim.record("connect_failed", pid, host, port, type(exc).__name__)
             d.errback(Failure(exc))
 
+        if kind == "sync_fail":
+            # HostnameEndpoint.connect() for a host name that is not valid IDNA: an already-failed Deferred, no I/O
+            self.fault("connect_sync_fail")
+            state["done"] = True
+            att["outcome"] = "ValueError"
+            sim.record("connect_failed", pid, host, port, "ValueError")
+            from twisted.internet.defer import fail
+            return fail(Failure(ValueError("invalid hostname: %s (simulated)" % host)))
         if kind in ("ok", "ignore_cancel"):
             sim.after(lat, finish_ok)
         elif kind == "refused":
